@@ -77,6 +77,8 @@ type Case struct {
 	LRecs      []Region `json:",omitempty"`
 	Regions    []Region `json:",omitempty"` // leader region set in the order GetRegions() returned it
 	Pending    []Region `json:",omitempty"`
+	Cut        int      `json:",omitempty"` // cut: number of full-sync batches delivered before the connection drops
+	FailIDs    []uint64 `json:",omitempty"` // cut: regions whose SaveRegion fails on the follower
 	FStored    []Region `json:",omitempty"` // chain: metas in the follower's own region storage before it starts
 	Msgs       []Msg    `json:",omitempty"`
 	FCache     []Region `json:",omitempty"`
@@ -239,6 +241,9 @@ func (c Case) coq() string {
 			optU(c.FP), coqMsgs(c.Msgs), coqRegions(c.FCache), coqfmt.ZU(c.FNext), coqU64s(c.FSaved))
 	case "bcast":
 		return fmt.Sprintf("CBcast %s\n  %s\n  %s\n  %s\n  %s", optU(c.LP), coqRegions(c.Pending), coqMsgs(c.Msgs), coqRegions(c.FCache), coqfmt.ZU(c.FNext))
+	case "cut":
+		return fmt.Sprintf("CCut %s\n  %s\n  %d%%nat %s\n  %s\n  %s\n  %s\n  %s", optU(c.LP), coqRegions(c.Regions), c.Cut, coqU64s(c.FailIDs),
+			coqRegions(c.Pending), coqMsgs(c.Msgs), coqRegions(c.FCache), coqfmt.ZU(c.FNext))
 	case "chain":
 		st := make([]string, len(c.FStored))
 		for i, r := range c.FStored {
@@ -556,6 +561,234 @@ func (p *pdStub) SyncRegions(stream pdpb.PD_SyncRegionsServer) error {
 
 var cleanup sync.WaitGroup
 
+// ---- stream cut: the connection drops after `cut` delivered batches, the leader's syncer restarts, the follower reconnects ----
+type failSaveKV struct {
+	kv.Base
+	fail map[string]bool
+}
+
+func (f *failSaveKV) Save(k, v string) error {
+	if f.fail[k] {
+		return fmt.Errorf("injected: save of %s fails", k)
+	}
+	return f.Base.Save(k, v)
+}
+
+type cutStream struct {
+	pdpb.PD_SyncRegionsServer
+	stub    *pdStub
+	cut     int
+	applied func(k int) // blocks until the follower has applied the k delivered messages
+	drop    func()      // drops the connection
+	once    *sync.Once
+}
+
+func (r *cutStream) Send(resp *pdpb.SyncRegionResponse) error {
+	r.stub.mu.Lock()
+	n := len(r.stub.msgs)
+	if n >= r.cut {
+		r.stub.mu.Unlock()
+		r.once.Do(func() { r.applied(n); r.drop() })
+		return fmt.Errorf("connection dropped by the harness after %d messages", n)
+	}
+	r.stub.msgs = append(r.stub.msgs, snapshot(resp))
+	r.stub.mu.Unlock()
+	return r.PD_SyncRegionsServer.Send(resp)
+}
+
+type cutStub struct {
+	pdStub
+	mk func(stream pdpb.PD_SyncRegionsServer) pdpb.PD_SyncRegionsServer
+}
+
+func (p *cutStub) SyncRegions(stream pdpb.PD_SyncRegionsServer) error {
+	return p.leader.Sync(p.mk(stream))
+}
+
+func runCut(R *res.Result, c Case) Case {
+	leader := newNode("leader", c.LP, true)
+	follower := newNode("follower", nil, false)
+	fails := map[string]bool{}
+	failID := map[uint64]bool{}
+	for _, id := range c.FailIDs {
+		fails[fmt.Sprintf("raft/r/%020d", id)] = true
+		failID[id] = true
+	}
+	follower.srv.storage.Base = &failSaveKV{Base: follower.srv.storage.Base, fail: fails}
+	for _, r := range c.Regions {
+		leader.srv.bc.PutRegion(r.info())
+	}
+	var noteMu sync.Mutex
+	wait := func(what string, cond func() bool) bool {
+		deadline := time.Now().Add(10 * time.Second)
+		for time.Now().Before(deadline) {
+			if cond() {
+				return true
+			}
+			time.Sleep(300 * time.Microsecond)
+		}
+		noteMu.Lock()
+		c.Note += "timeout waiting for " + what + "; "
+		noteMu.Unlock()
+		return false
+	}
+	lis, err := net.Listen("tcp", "127.0.0.1:0")
+	if err != nil {
+		panic(err)
+	}
+	addr := lis.Addr().String()
+	gs1 := grpc.NewServer()
+	stub1 := &cutStub{pdStub: pdStub{leader: leader.syncer}}
+	var once sync.Once
+	var order []Region
+	stub1.mk = func(stream pdpb.PD_SyncRegionsServer) pdpb.PD_SyncRegionsServer {
+		return &cutStream{PD_SyncRegionsServer: stream, stub: &stub1.pdStub, cut: c.Cut, once: &once,
+			applied: func(k int) {
+				want := 0
+				stub1.mu.Lock()
+				for _, m := range stub1.msgs {
+					want += len(m.Regions)
+				}
+				stub1.mu.Unlock()
+				wait("the follower to apply the delivered batches", func() bool { return len(follower.srv.bc.GetRegions()) == want })
+				var o []Region
+				for _, ri := range leader.srv.lastGet {
+					o = append(o, regionOf(ri))
+				}
+				stub1.mu.Lock()
+				order = o
+				stub1.mu.Unlock()
+			},
+			drop: func() { go gs1.Stop() }}
+	}
+	pdpb.RegisterPDServer(gs1, stub1)
+	go gs1.Serve(lis)
+	follower.syncer.StartSyncWithLeader("http://" + addr)
+	dropped := wait("the connection to be dropped", func() bool {
+		stub1.mu.Lock()
+		defer stub1.mu.Unlock()
+		return order != nil
+	})
+	// the leader's syncer restarts over the same storage; a new server takes the address over
+	leader2 := syncer.NewRegionSyncer(leader.srv)
+	stub2 := &pdStub{leader: leader2}
+	gs2 := grpc.NewServer()
+	pdpb.RegisterPDServer(gs2, stub2)
+	if dropped {
+		var lis2 net.Listener
+		wait("the address to be free again", func() bool {
+			lis2, err = net.Listen("tcp", addr)
+			return err == nil
+		})
+		if lis2 != nil {
+			go gs2.Serve(lis2)
+		}
+	}
+	expect := func() (uint64, bool) {
+		stub2.mu.Lock()
+		defer stub2.mu.Unlock()
+		if len(stub2.msgs) == 0 {
+			return 0, false
+		}
+		m := stub2.msgs[len(stub2.msgs)-1]
+		n := m.Start
+		for _, r := range m.Regions {
+			if !failID[r.ID] {
+				n++
+			}
+		}
+		return n, true
+	}
+	caughtUp := func() bool {
+		e, ok := expect()
+		return !ok || follower.syncer.VerifHistory().GetNextIndex() == e
+	}
+	bound := dropped && wait("the follower to reconnect and the leader to answer", func() bool { return leader2.VerifStreamBound("follower") })
+	if bound {
+		wait("the follower to apply the answer", caughtUp)
+		if len(c.Pending) > 0 {
+			hist := 0
+			stub2.mu.Lock()
+			for _, m := range stub2.msgs {
+				hist += len(m.Regions)
+			}
+			stub2.mu.Unlock()
+			ch := make(chan *core.RegionInfo, len(c.Pending)+1)
+			for _, r := range c.Pending {
+				ch <- r.info()
+			}
+			quit := make(chan struct{})
+			go leader2.RunServer(ch, quit)
+			wait("RunServer to drain the notifier", func() bool {
+				stub2.mu.Lock()
+				defer stub2.mu.Unlock()
+				total := 0
+				for _, m := range stub2.msgs {
+					total += len(m.Regions)
+				}
+				return total == hist+len(c.Pending)
+			})
+			wait("the follower to apply the broadcasts", caughtUp)
+			close(quit)
+		}
+	}
+	stub1.mu.Lock()
+	c.Msgs = append([]Msg(nil), stub1.msgs...)
+	stub1.mu.Unlock()
+	stub2.mu.Lock()
+	c.Msgs = append(c.Msgs, stub2.msgs...)
+	stub2.mu.Unlock()
+	if order != nil {
+		c.Regions = order
+	}
+	fr := follower.srv.bc.GetRegions()
+	sort.Slice(fr, func(i, j int) bool { return fr[i].GetID() < fr[j].GetID() })
+	c.FCache = nil
+	for _, ri := range fr {
+		c.FCache = append(c.FCache, regionOf(ri))
+	}
+	c.FNext = follower.syncer.VerifHistory().GetNextIndex()
+	cleanup.Add(1)
+	go func() {
+		defer cleanup.Done()
+		follower.syncer.StopSyncWithLeader()
+		gs1.Stop()
+		gs2.Stop()
+		for _, n := range []*node{leader, follower} {
+			n.cancel()
+			n.rs.Close()
+			os.RemoveAll(n.dir)
+		}
+	}()
+	checkSent(R, &c)
+	return c
+}
+
+func genCut(r *rng.R, k int) Case {
+	sizes := []int{101, 150, 230, 250}
+	n := sizes[k%len(sizes)]
+	c := Case{Kind: "cut"}
+	c.Regions = genRegions(r, n, []int{1, 1, 2}[r.Intn(3)], 0)
+	c.LP = u64p(uint64(1000 + r.Intn(100000)))
+	batches := (n + 99) / 100
+	c.Cut = 1 + r.Intn(batches-1)
+	if r.Pct(60) {
+		for i := 0; i < 1+r.Intn(3); i++ {
+			c.FailIDs = append(c.FailIDs, c.Regions[r.Intn(len(c.Regions))].ID)
+		}
+	}
+	if r.Pct(70) {
+		c.Pending = genUpdates(r, c.Regions, []int{1, 7, 120}[r.Intn(3)])
+		for i := range c.Pending {
+			if c.Pending[i].Leader == nil {
+				p := c.Pending[i].Peers[0]
+				c.Pending[i].Leader = &p
+			}
+		}
+	}
+	return c
+}
+
 // runSync: leader restarted over lp, records lrecs, holds `regions`; follower restarted over fp.
 // If pending != nil the follower must be in sync (lp == fp) and `pending` goes through RunServer.
 func runSync(R *res.Result, c Case) Case {
@@ -724,6 +957,14 @@ func checkSent(R *res.Result, c *Case) {
 	switch {
 	case c.Kind == "bcast":
 		phase = "broadcast"
+		for _, r := range c.Pending {
+			held[r.ID] = r
+		}
+	case c.Kind == "cut":
+		phase = "cut+reconnect"
+		for _, r := range c.Regions {
+			held[r.ID] = r
+		}
 		for _, r := range c.Pending {
 			held[r.ID] = r
 		}
@@ -967,6 +1208,7 @@ func main() {
 	n := flag.Int("n", 300, "number of generated buffer cases")
 	nsync := flag.Int("nsync", 48, "number of generated sync cases")
 	nbcast := flag.Int("nbcast", 9, "number of generated broadcast cases")
+	ncut := flag.Int("ncut", 4, "number of generated stream-cut / reconnect cases (each costs >= 1 s: the client sleeps before it reconnects)")
 	nchain := flag.Int("nchain", 14, "number of generated stale-follower / sync-then-broadcast cases")
 	out := flag.String("out", ".", "output directory")
 	tier := flag.String("tier", "quick", "")
@@ -1023,6 +1265,8 @@ func main() {
 		switch c.Kind {
 		case "buf":
 			return runBuf(R, c.Cap, c.Ops)
+		case "cut":
+			return runCut(R, slim(c))
 		default:
 			return runSync(R, slim(c))
 		}
@@ -1069,6 +1313,7 @@ func main() {
 			*nsync *= 4
 			*nbcast *= 3
 			*nchain *= 4
+			*ncut *= 4
 		}
 		// S8 regression (fixed by 3a92c2a): a reset is persisted
 		emit(runBuf(R, 10, []BufOp{{K: "record", Arg: 1, OK: true}, {K: "reset", Arg: 1000000, OK: true}, {K: "record", Arg: 2, OK: true},
@@ -1081,6 +1326,29 @@ func main() {
 		}
 		for k := 0; k < *nchain; k++ {
 			emit(runSync(R, genChain(master.Fork(uint64(3000000+k)), k)))
+		}
+		{
+			// the cut cases wait for the client's reconnect back-off: run them side by side
+			cases := make([]Case, *ncut)
+			var wg sync.WaitGroup
+			var rmu sync.Mutex
+			for k := 0; k < *ncut; k++ {
+				wg.Add(1)
+				go func(k int) {
+					defer wg.Done()
+					Rk := res.New("C16", *seed, *tier)
+					cases[k] = runCut(Rk, genCut(master.Fork(uint64(4000000+k)), k))
+					rmu.Lock()
+					for _, v := range Rk.Violations {
+						R.Violate(v.Sig, v.Desc, v.Replay)
+					}
+					rmu.Unlock()
+				}(k)
+			}
+			wg.Wait()
+			for _, c := range cases {
+				emit(c)
+			}
 		}
 		for k := 0; k < *n; k++ {
 			capacity, ops := genBuf(master.Fork(uint64(k)))
